@@ -231,9 +231,9 @@ func c12AddChain(r *Run) {
 			r.ExpectArg(c, "MerkleTreeLeafFromRawChain:type", 1, "p1")
 			r.ExpectArg(c, "MerkleTreeLeafFromRawChain:timestamp", 2, "p2")
 			chain := r.D.D(CallArgs(c)[0])
-			r.ExpectStores(lf, "MerkleTreeLeafFromRawChain:chain[i]", "&("+chain+"[*])", "x509.ParseCertificate(p0[(1 + it@*)].Data)#0", 1)
+			r.ExpectStores(lf, "MerkleTreeLeafFromRawChain:chain[i]", "&("+chain+"[*])", "x509.ParseCertificate(p0[it@*].Data)#0", 1)
 			for _, st := range r.StoresTo(lf, "&("+chain+"[*])") {
-				r.Check("MerkleTreeLeafFromRawChain:same-index", strings.Contains(r.D.D(st.Addr), "[(1 + it@") && strings.Count(r.D.D(st.Addr)+r.D.D(st.Val), "it@") == 2, r.Where(st), "chain[i] ← parse(rawChain[i]): "+r.D.D(st.Addr)+" ← "+r.D.D(st.Val))
+				r.Check("MerkleTreeLeafFromRawChain:same-index", strings.Contains(r.D.D(st.Addr), "[it@") && strings.Count(r.D.D(st.Addr)+r.D.D(st.Val), "it@") == 2, r.Where(st), "chain[i] ← parse(rawChain[i]): "+r.D.D(st.Addr)+" ← "+r.D.D(st.Val))
 			}
 		}
 		r.FailEdge(lf, "MerkleTreeLeafFromRawChain", EdgeSpec{Name: "cert-unparsable", Atom: boolAtom("x509.IsFatal(x509.ParseCertificate(*)#1)"), Bad: "T", Want: wantErr(true), Unreach: asInstrs(CallsTo(lf, "ct.MerkleTreeLeafFromChain"))})
